@@ -51,7 +51,7 @@ LEVEL_NOTE = ('Trusted: NumPy (long double), Hypothesis, vlib/ref/interp.py '
               'Python floats. Grid coordinates are taken from the library '
               'object (grids are C14\'s business).')
 DESIGN_REF = 'DESIGN.md section 5, C15'
-BUDGET = {'quick': 6000, 'thorough': 120000}
+BUDGET = {'quick': 6000, 'thorough': 80000}
 TOLERANCES = {
     'sampling': 'bitwise equal to point-by-point scalar evaluation (== on the '
                 'values, so -0.0 == 0.0)',
@@ -747,6 +747,10 @@ def run_sample(desc):
         if not isinstance(got, np.ndarray):
             raise Violation('C15|sample|{}-type|{}'.format(label, sig_tail),
                             'returned {!r}'.format(type(got)))
+        if got.dtype != dtype:
+            raise Violation('C15|sample|{}-dtype|{}'.format(label, sig_tail),
+                            'result dtype {} expected {}'.format(got.dtype,
+                                                                 dtype))
         if got.shape != want.shape or not bool(np.all(got == want)):
             raise Violation('C15|sample|{}-values|{}'.format(label, sig_tail),
                             '{}; real={!r} imag={!r}'.format(
